@@ -986,7 +986,7 @@ class IMAPClientCommand:
 
         # Reference mailbox name
         #
-        self.mailbox_name = self._p_mailbox()
+        self.mailbox_name = self._p_mailbox(reference=True)
         self._p_simple_string(" ")
 
         # Mailbox pattern(s): either a single list-mailbox or a
@@ -1998,7 +1998,7 @@ class IMAPClientCommand:
 
     #######################################################################
     #
-    def _p_mailbox(self) -> str:
+    def _p_mailbox(self, reference: bool = False) -> str:
         """mailbox ::= 'INBOX' / astring
 
         INBOX is case-insensitive.  All case variants of INBOX (e.g. 'iNbOx')
@@ -2013,9 +2013,21 @@ class IMAPClientCommand:
         if mbox_name.lower() == "inbox":
             return "inbox"
         if mbox_name != "":
-            return os.path.normpath(mbox_name)
-        else:
-            return mbox_name
+            # Mailbox names are paths relative to the user's mail directory
+            # and must stay inside it. `normpath` collapses `a/../b` but
+            # keeps a leading `..` and a leading `//`, so: drop any leading
+            # `/` (our namespace prefix) and refuse names that climb out.
+            # (The reference argument of LIST is only ever matched against
+            # the names we know, it keeps its leading `/`.)
+            #
+            mbox_name = os.path.normpath(mbox_name)
+            if not reference:
+                mbox_name = mbox_name.lstrip("/")
+            if mbox_name == ".." or mbox_name.startswith("../"):
+                raise BadSyntax(
+                    "a mailbox name may not refer outside the mail directory"
+                )
+        return mbox_name
 
     #######################################################################
     #
